@@ -160,7 +160,26 @@ func c17Counter(c *Ctx) {
 				case 2, 3:
 					if len(clones) > 0 {
 						cl := clones[r.IntN(len(clones))]
-						if r.IntN(3) == 0 {
+						if r.IntN(4) == 0 {
+							// a snapshot kept since earlier is merged into the live counter: what is added now is what the
+							// snapshot counts now (read back right after the merge, at the same instant)
+							if err := rc.Append(cl.rc); err != nil {
+								c.Violation("append/error", err.Error(), nil)
+								return
+							}
+							amt := cl.rc.Count()
+							lo, hi := c17Bounds(cl.log, now(), n, res)
+							if amt < lo || amt > hi {
+								c.Violation("window/clone", sfmt("N=%d r=%v: a clone kept since earlier reports Count() = %d outside [%d,%d] of its own history at step %d", n, res, amt, lo, hi, s),
+									map[string]any{"buckets": n, "resolution": res.String(), "script": script})
+								return
+							}
+							if amt > 0 {
+								log = append(log, c17Inc{now(), amt})
+							}
+							script = append(script, sfmt("append-clone(%d)", amt))
+							c.Count("clone_appends", 1)
+						} else if r.IntN(3) == 0 {
 							v := int64(1 + r.IntN(5))
 							cl.rc.Inc(int(v))
 							cl.log = append(cl.log, c17Inc{now(), v})
